@@ -126,7 +126,13 @@ func c08Oracle(r *rcRun, cfgName string) {
 			vrt.Failf("c08/resubscribe-on-first-connection", "SUBSCRIBE(%s) was sent %d times on the first connection for %d application request(s) (%s)\n%s", ls, n, reqCount[ls], cfgName, r.summary())
 		}
 	}
-	if r.cfg.KeepSession && !r.cfg.AlwaysResub && !r.cfg.Clean {
+	forgot := false
+	for _, f := range r.broker.FaultLog {
+		if strings.Contains(f, "session-forgotten") {
+			forgot = true
+		}
+	}
+	if r.cfg.KeepSession && !r.cfg.AlwaysResub && !r.cfg.Clean && !forgot {
 		for ls, n := range sent {
 			if n-unacked[ls] > reqCount[ls] {
 				vrt.Failf("c08/resubscribe-despite-session", "session kept, AlwaysResubscribe off: SUBSCRIBE(%s) was acknowledged %d times for %d application request(s) (%s)\n%s", ls, n-unacked[ls], reqCount[ls], cfgName, r.summary())
@@ -320,6 +326,29 @@ func runC08(c *Ctx) {
 				run("parked.F2", reqs, cf, vrt.Budget{F: 2})
 			}
 		}
+	}
+	// three subscriptions, the connection lost while a SUBSCRIBE is in flight up to three times and
+	// the session forgotten by the broker on some reconnect (kept on the others)
+	{
+		reqs := []rcReq{{Kind: "sub", Subs: []string{"a:1"}, Phase: 'S'}, {Kind: "sub", Subs: []string{"b:1"}, Phase: 'S'}, {Kind: "sub", Subs: []string{"c:1"}, Phase: 'S'}}
+		var r *rcRun
+		cfgName := "keep=true, session forgotten on some reconnects"
+		fs := env.FaultSet{LostClose: true, ForgetSession: true, OnlyTypes: map[byte]bool{env.SUBSCRIBE: true, env.CONNECT: true}}
+		fb := 4
+		if c.Thorough() {
+			fb = 5
+		}
+		sc := &vrt.Scenario{
+			Name:  fmt.Sprintf("C08/subs3.F%d.session-forgotten/%s", fb, rcName(reqs)),
+			Bound: vrt.Budget{F: fb},
+			Cfg:   vrt.Config{Horizon: int64(600 * time.Second)},
+			Body: func() {
+				rcExecuteInto(&rcCfg{Reqs: reqs, Faults: fs, KeepSession: true}, &r)
+				c08Oracle(r, cfgName)
+			},
+			Observe: func() uint64 { return r.net.TraceHash() ^ vrt.HashString(r.broker.SubsString()) },
+		}
+		c.Explore(sc)
 	}
 	// a silent (half-open) link with ResponseTimeout configured: the request must still take effect
 	silent := env.FaultSet{Silent: true, SilentDrop: true, OnlyTypes: map[byte]bool{env.SUBSCRIBE: true, env.UNSUBSCRIBE: true, env.PUBLISH: true}}
